@@ -63,14 +63,35 @@ def name_of(b):
     return f"x{b}"
 
 
-def operand(P, it, b):
+def nested_spawn(path, depth, try_):
+    """a thread-spawning macro nested `depth` levels deep; every branch callback logs the thread it runs on"""
+    m = "try_join_spawn" if try_ else "join_spawn"
+    p0 = ", ".join(str(x) for x in path + [0])
+    p1 = ", ".join(str(x) for x in path + [1])
+    deeper = (nested_spawn(path + [1], depth - 1, not try_) + "; ") if depth > 1 else ""
+    return (f"let _ = {m}! {{ Some(0u8) |> move |v| {{ rt::nest(&[{p0}]); v }}, "
+            f"Some(1u8) |> move |v| {{ {deeper}rt::nest(&[{p1}]); v }} }}")
+
+
+def with_nest(P, it, b, k, c):
+    """wraps the body of closure text `|params| body` with the nested macro if the item asks for it"""
+    n = it.get("nest", 0)
+    if not n:
+        return c
+    active = sum(1 for B in P["branches"] if len(B["steps"]) > k)
+    path = [b] if (P["kind"]["spawn"] and not P["kind"]["async"] and active > 1) else []
+    head, body = c.split("| ", 1)
+    return f"{head}| {{ {nested_spawn(path, n, False)}; {body} }}"
+
+
+def operand(P, it, b, k=0):
     op, i, form = it["op"], it["id"], it["form"]
     if op == "dot":
         return f"dot({i})"
     if op == "or":
         f = "rt::oalt" if P["carrier"] == "opt" else "rt::alt"
         return f"{f}({i}, {b})"
-    c = closure(P, it, b)
+    c = with_nest(P, it, b, k, closure(P, it, b))
     if form == "closure":
         return c
     if form == "call":
@@ -106,7 +127,7 @@ def branch_src(P, b):
             sym = SYM[it["op"]]
             if unwrapped and k > 0 and j == 0 and it["op"] == "and_then":
                 sym = "->"
-            parts.append(f"{tilde}{sym} {operand(P, it, b)}")
+            parts.append(f"{tilde}{sym} {operand(P, it, b, k)}")
     return " ".join(parts)
 
 
